@@ -509,6 +509,20 @@ def applyAction (d : Disk) : Action → Disk
       | none => d
     if AL.contains d1.layers new then { d1 with default := some new } else d1
 
+/-- Does replaying this history move a glyph directory onto the default directory while another
+layer still occupies it?  ufoLib's `renameGlyphSet(name, name, defaultLayer=True)` does not check
+(finding F37, reachable after an external default-layer change that no reload took over); the model,
+which keys the layers on disk by name, does not express the merged directories. -/
+def replayHazard : Disk → List Action → Bool
+  | _, [] => false
+  | d, .default new old :: rest =>
+    let d1 : Disk := match old with
+      | some o => if d.default = some o then { d with default := none } else d
+      | none => d
+    (AL.contains d1.layers new && d1.default.isSome && decide (d1.default ≠ some new)) ||
+      replayHazard (applyAction d (.default new old)) rest
+  | d, a :: rest => replayHazard (applyAction d a) rest
+
 /-- `writer.getGlyphSet(name, defaultLayer)`, `layer.save`, layer info: one layer of the order -/
 def saveOneLayer (tD tS : Time) (s : State) (ln : String) : State :=
   match getLayer s ln with
@@ -543,6 +557,7 @@ def save (s : State) (tD tS : Time) : Except Err State :=
   let s5 := savePart tD tS false s4 .features
   let s6 := saveFS tD tS s5 true
   let s7 := saveFS tD tS s6 false
+  if replayHazard s.disk s.font.history then .error .outsideDomain else
   let s8 : State := { s7 with disk := s7.font.history.foldl applyAction s7.disk }
   let s9 := s7.font.order.foldl (saveOneLayer tD tS) s8
   -- writeLayerContents(layerOrder): the names must be those of the glyph sets that exist
